@@ -51,6 +51,8 @@ type out struct {
 	Samples  []any     `json:"samples"`
 	// PolicyDiffs counts requests whose fid number differs from the LIFO pool of FidPool.tla
 	PolicyDiffs int `json:"policy_diffs"`
+	// Unclunked counts xattr operations whose attribute fid was not clunked (not a violation by itself)
+	Unclunked int `json:"unclunked"`
 }
 
 // conn is the client's transport end; the next write can be made to fail.
@@ -81,6 +83,7 @@ func run(t *wirecodec.Table, v *vec, o *out) {
 	// the scripted server: answers one request according to `mode', records what it saw
 	var mu sync.Mutex
 	mode := "ok"
+	xsize := uint64(0)
 	bound := map[uint64]bool{}
 	type seen struct {
 		name string
@@ -112,6 +115,13 @@ func run(t *wirecodec.Table, v *vec, o *out) {
 			case "Twalk":
 				s.fid = wirecodec.U(f.V, "newfid")
 				reply = "Rwalk"
+			case "Txattrwalk":
+				s.fid = wirecodec.U(f.V, "newfid")
+				reply = "Rxattrwalk"
+			case "Tread":
+				// the value of the attribute, read through the fid Txattrwalk bound
+				toCli.Write(t.Encode("Rread", f.Tag, wirecodec.Values{"data": []byte("val")}))
+				continue
 			case "Tclunk":
 				s.fid = wirecodec.U(f.V, "fid")
 				reply = "Rclunk"
@@ -122,7 +132,7 @@ func run(t *wirecodec.Table, v *vec, o *out) {
 				continue
 			}
 			mu.Lock()
-			binds := f.Name == "Tattach" || f.Name == "Twalk"
+			binds := f.Name == "Tattach" || f.Name == "Twalk" || f.Name == "Txattrwalk"
 			if binds {
 				s.re = bound[s.fid]
 				if m != "refused" {
@@ -137,6 +147,11 @@ func run(t *wirecodec.Table, v *vec, o *out) {
 				vals := wirecodec.Values{}
 				if reply == "Rattach" {
 					vals["qid"] = wirecodec.Values{"type": 0x80, "path": 1}
+				}
+				if reply == "Rxattrwalk" {
+					mu.Lock()
+					vals["size"] = xsize
+					mu.Unlock()
 				}
 				toCli.Write(t.Encode(reply, f.Tag, vals))
 			case "refused":
@@ -184,6 +199,14 @@ func run(t *wirecodec.Table, v *vec, o *out) {
 			_, f, err = root.Walk(nil)
 		case "attach":
 			f, err = cl.Attach("")
+		case "xattr0", "xattr3":
+			mu.Lock()
+			xsize = 0
+			if st.Op == "xattr3" {
+				xsize = 3
+			}
+			mu.Unlock()
+			_, err = root.GetXattr("user.a")
 		case "close":
 			err = files[st.Fid].Close()
 			delete(files, st.Fid)
@@ -229,6 +252,20 @@ func run(t *wirecodec.Table, v *vec, o *out) {
 				add(i, fmt.Sprintf("%s reached the server although the write failed (%v)", st.Op, s), false)
 				return
 			case <-time.After(2 * time.Millisecond):
+			}
+		}
+		if (st.Op == "xattr0" || st.Op == "xattr3") && st.Out == "ok" {
+			// the attribute's fid is clunked before the call returns; the event may trail the reply by an instant
+			select {
+			case s := <-got:
+				if s.name != "Tclunk" {
+					add(i, fmt.Sprintf("%s: after Txattrwalk the server saw %s fid %d, FidPool.tla: Tclunk of the attribute's fid", st.Op, s.name, s.fid), false)
+					return
+				}
+			case <-time.After(300 * time.Millisecond):
+				// no Tclunk: the server keeps the fid bound; whether its number is handed out again is what the
+				// monitor at the next binding request decides
+				o.Unclunked++
 			}
 		}
 		if err == nil && f != nil {
